@@ -70,7 +70,7 @@ def run_measurement_history(case):
     pd_ = sim.generate_position_measurements(traj, 1.0, 1)
     objs += [measurements.NedVelocity(vd, 0.3), measurements.NedVelocity(vd[['VE', 'VD', 'VN']], 0.3, lever), measurements.NedVelocity(vd[['VD', 'VN', 'VE']], 0.3),
              measurements.Position(pd_[['alt', 'lon', 'lat']], 1.0), measurements.Position(pd_[['lon', 'alt', 'lat']], 1.0, lever)]
-    ems = {True: InsErrorModel(True), False: InsErrorModel(False)}
+    ems = {True: InsErrorModel(np.True_ if case['seed'] % 2 else True), False: InsErrorModel(np.False_ if case['seed'] % 2 else False)}      # bool or numpy.bool_
     out = []
     obs = {}
     pv = traj.iloc[2].copy()
@@ -130,7 +130,7 @@ def run_case(case):
     try:
         if case['cls'] == 'feedback':
             r = filters.run_feedback_filter(initial, pos_sd, 1, 0.5, 1.0, S['increments'], S['gyro_model'], S['accel_model'],
-                                            measurements=S['measurements'], time_step=S['time_step'], with_altitude=False)
+                                            measurements=S['measurements'], time_step=S['time_step'], with_altitude=(np.False_ if case['seed'] % 2 else False))
             obs['feedback_runs'] = 1
         else:
             comp = traj.copy()
@@ -139,7 +139,7 @@ def run_case(case):
             comp['heading'] += 0.2
             gm, am = S['gyro_model'], S['accel_model']
             r = filters.run_feedforward_filter(traj, comp, 5, 1, 0.5, 1.0, gm, am, measurements=S['measurements'],
-                                               increments=S['increments'], time_step=S['time_step'], with_altitude=False)
+                                               increments=S['increments'], time_step=S['time_step'], with_altitude=(np.False_ if case['seed'] % 2 else False))
             obs['feedforward_runs'] = 1
     except Exception as e:
         import traceback
